@@ -5,7 +5,7 @@ import os, re, subprocess, time, json, shutil, threading, queue, hashlib
 VERIF = os.path.dirname(os.path.dirname(os.path.abspath(__file__)))
 KDIR = os.path.join(VERIF, "kani")
 TARGET = os.path.join(VERIF, "target")
-REPO = "/repo"
+REPO = os.environ.get("VERIF_REPO", "/repo")
 
 CHECK_RE = re.compile(
     r"Check (\d+): (\S+)\n\s*- Status: (\w+)\n\s*- Description: \"(.*?)\"\n\s*- Location: (.*?)\n", re.S)
@@ -40,7 +40,7 @@ def classify(desc, loc, name):
     # CBMC float checks are not Rust failures
     if desc.startswith("NaN on") or "arithmetic overflow on floating-point" in desc:
         return "ignore"
-    if "/repo/src" in loc or loc.startswith("/repo/"):
+    if (REPO + "/src") in loc or "repo/src/" in loc or loc.startswith(REPO + "/") or re.search(r"(^|/)mut_\w+/src/", loc):
         return "repo_panic"
     if loc.startswith("src/") or "/verif/kani/src" in loc:
         return "harness"
